@@ -281,13 +281,19 @@ class UTPM(Ring, RawAlgorithmsMixIn):
         ybar, dummy, xbar = out
         # print 'xbar =', xbar
         # print 'ybar =', ybar
-        if isinstance(xbar, UTPM) and xbar.data.shape != ybar[sl].data.shape:
-            # x was broadcast into the slice: sum the adjoint over the broadcast axes
-            xbar2, ybar2 = cls.broadcast(xbar, ybar[sl])
-            workaround_strides_function(xbar2, ybar2, operator.iadd)
-        else:
-            xbar += ybar[sl]
+        # the adjoint of the overwritten entries; it is taken out of ybar BEFORE it is
+        # accumulated into xbar, because x may be a view of y itself (y[0:2] = y[1:3])
+        tmp = ybar[sl].copy()
         ybar[sl].data[...] = 0.
+        if not isinstance(xbar, UTPM):
+            # x is a constant (ndarray): nothing to accumulate
+            pass
+        elif xbar.data.shape != tmp.data.shape:
+            # x was broadcast into the slice: sum the adjoint over the broadcast axes
+            xbar2, tmp2 = cls.broadcast(xbar, tmp)
+            workaround_strides_function(xbar2, tmp2, operator.iadd)
+        else:
+            xbar += tmp
         # print 'funcargs=',funcargs
         # print y[funcargs[0]]
 
